@@ -356,3 +356,48 @@ func Substitute(t Template, vals map[string]string) string {
 	}
 	return sb.String()
 }
+
+// ParseTemplate reads a template the way a user writes it ("/users/{id:[0-9]+}/x:run").
+// Variable names are taken from the text. It understands the grammar of DESIGN.md 3.1 only.
+func ParseTemplate(s string) Template {
+	s = strings.Trim(s, "/")
+	if s == "" {
+		return nil
+	}
+	var t Template
+	parts := strings.Split(s, "/")
+	for i, p := range parts {
+		seg := Seg{}
+		open, close := strings.Index(p, "{"), strings.LastIndex(p, "}")
+		if open == -1 || close < open {
+			base, verb := p, ""
+			if i == len(parts)-1 {
+				base, verb = SplitVerb(p)
+			}
+			seg = Seg{Kind: Lit, Lit: base, Verb: verb}
+		} else {
+			inner := p[open+1 : close]
+			rest := p[close+1:]
+			if i == len(parts)-1 && strings.HasPrefix(rest, ":") && verbRe.MatchString(rest) {
+				seg.Verb = rest[1:]
+				rest = ""
+			}
+			name, re := inner, ""
+			if c := strings.Index(inner, ":"); c >= 0 {
+				name, re = inner[:c], inner[c+1:]
+			}
+			switch {
+			case re == "*":
+				seg.Kind, seg.Name = Tail, name
+			case re != "":
+				seg.Kind, seg.Name, seg.Re = VarRe, name, re
+			case open > 0 || rest != "":
+				seg.Kind, seg.Name, seg.Pre, seg.Suf = Affix, name, p[:open], rest
+			default:
+				seg.Kind, seg.Name = Var, name
+			}
+		}
+		t = append(t, seg)
+	}
+	return t
+}
